@@ -64,16 +64,23 @@ ReqSets(G, mode) ==
   CASE mode = "cells" -> UpTo(MaxCells, CellIx(G))
     [] mode = "faces" -> UpTo(MaxFaces, FaceIx(G))
     [] mode = "nodes" -> {NodesOfCells(G, S) : S \in UpTo(MaxCells, CellIx(G))} \cup UpTo(MaxNodes, NodeIx(G))
-Reqs(g) == UNION {{[t |-> "req", g |-> g, mode |-> m, set |-> X] : X \in ReqSets(GR(g), m)} : m \in Modes}
-           \* the whole set of nodes / cells is a legitimate request too
-           \cup {[t |-> "req", g |-> g, mode |-> "nodes", set |-> NodeIx(GR(g))],
-                 [t |-> "req", g |-> g, mode |-> "cells", set |-> CellIx(GR(g))]}
+\* requests are generated from NB bucket states per (grid, mode) so that all workers take part
+NB == 8
+BucketOf(X) == (SumSet(X) + Cardinality(X)) % NB
+AllReqSets(G, mode) ==
+  ReqSets(G, mode) \cup (CASE mode = "nodes" -> {NodeIx(G)}        \* the whole set of nodes / cells is a
+                           [] mode = "cells" -> {CellIx(G)}        \* legitimate request too
+                           [] OTHER -> {})
+Buckets(g) == {[t |-> "bucket", g |-> g, mode |-> m, b |-> b] : m \in Modes, b \in 0..(NB - 1)}
+Reqs(g, mode, b) == {[t |-> "req", g |-> g, mode |-> mode, set |-> X] :
+                       X \in {Y \in AllReqSets(GR(g), mode) : BucketOf(Y) = b}}
 
 Parts(g) == IF GR(g).nc > LawCells THEN {}
             ELSE {[t |-> "part", g |-> g, p |-> p] : p \in [1..GR(g).nc -> 0..(MaxParts - 1)]}
 
 Init == st \in {[t |-> "grid", g |-> g] : g \in 1..Len(Grids)}
-Next == st.t = "grid" /\ st' \in Cfgs(st.g) \cup Reqs(st.g) \cup Parts(st.g)
+Next == \/ st.t = "grid" /\ st' \in Cfgs(st.g) \cup Buckets(st.g) \cup Parts(st.g)
+        \/ st.t = "bucket" /\ st' \in Reqs(st.g, st.mode, st.b)
 Spec == Init /\ [][Next]_st
 
 (* ------------------------------- emission ------------------------------- *)
